@@ -1,7 +1,8 @@
 (* scanTemplate / scan of internal/compiler/lexer.go for templates: the text
    scan with its contexts, scanTag, scanAttribute, CDATA, Markdown code blocks
    and URLs, the delimiters, lexComment, raw blocks (skipRawContent,
-   endRawIndex, skipRawSpaces), the shebang line.  No proofs here. *)
+   endRawIndex, skipRawSpaces), the shebang line; scanProgram / scan for
+   programs at the end.  No proofs here. *)
 From Verif Require Import Bytes Utf8 Facts_lexer LexBase LexCodeM.
 Open Scope N_scope.
 
@@ -498,7 +499,7 @@ Inductive outcome : Type :=
 
 Definition scan_start (fmt : N) (text : bytes) : lexer :=
   mkL text 0 1 1 fmt [] [] [] 0 (if fmt =? gen_ContextMarkdown then gen_ContextMarkdown else gen_ContextHTML)
-      None 0 0 [] false false.
+      None 0 0 [] false false true.
 
 Definition shebang (l : lexer) : res lexer :=
   if 1 <? len l then
@@ -537,3 +538,25 @@ Definition scan_template (fmt : N) (text : bytes) : outcome :=
   end.
 
 End Scan.
+
+(* ---- scanProgram: scan with templateSyntax = false, that is lexCode(tokenEOF)
+   on the whole source followed by the EOF token ---- *)
+Section Program.
+Variable U : unitab.
+
+Definition prog_start (text : bytes) : lexer :=
+  mkL text 0 1 1 gen_ContextText [] [] [] 0 0 None 0 0 [] false false false.
+
+Definition scan_program_run (text : bytes) : res lexer :=
+  let* l1 := lex_code U gen_tokenEOF (prog_start text) in
+  emit gen_tokenEOF 0 l1.
+
+Definition scan_program (text : bytes) : outcome :=
+  match scan_program_run text with
+  | Ok l => Done (rev (l_out l)) None
+  | Err l => Done (rev (l_out l)) (Some l)
+  | Fault => Crashed
+  | NoFuel => OutOfFuel
+  end.
+
+End Program.
